@@ -65,6 +65,13 @@ def gen(tier, seed):
             cls = 'ext-unclamped<2^255'
         yield 'ed_ext_pub %s #%s' % (bytes(e).hex(), cls)
         yield 'ed_sign_ext %s %s #%s' % (bytes(e).hex(), rng.data(rng.choice([0, 1, 80, 300])), cls)
+    # clamped extended scalars made of 64-bit words of sevens / eights / all-ones (carries of a word-wise digit recoding sit between them)
+    from .c15 import word_pattern_scalars
+    for v in word_pattern_scalars(rng, 90 if thorough else 30):
+        e = bytearray(v.to_bytes(32, 'little') + rng.bytes(32))
+        e[0] &= 248; e[31] &= 63; e[31] |= 64
+        yield 'ed_ext_pub %s #ext-word-pattern' % bytes(e).hex()
+        yield 'ed_sign_ext %s %s #ext-word-pattern' % (bytes(e).hex(), rng.data(rng.choice([0, 33])))
     # clamped extended scalars a = t + k*L whose residue t modulo the group order is an edge value (0, 1, 2^252 +- j, L - j): what
     # the implementation does with a (reduce it, recode it into signed nibbles, multiply) sees its corner cases
     L_ = o.L
